@@ -235,7 +235,7 @@ func c02run(r *ev.Run) {
 			r.Report(f)
 		}
 	}
-	sets := []boundSet{{"struct<=2,value<=1", []int{2, 0, 1}}}
+	sets := []boundSet{{"struct<=2,value<=1", []int{2, 0, 1}}, {"struct<=3", []int{3, 0, 0}}}
 	if thorough(r) {
 		sets = []boundSet{{"struct<=3,value<=1", []int{3, 0, 1}}, {"struct<=2,value<=2", []int{2, 0, 2}}}
 	}
